@@ -1,0 +1,10 @@
+//go:build verif
+
+package signal
+
+// VerifData exposes the backing slice header of the Buffer to external
+// runtime monitors. It is compiled only with the verif build tag and is
+// never used by the package itself.
+func (b *Buffer[T]) VerifData() []T {
+	return b.data
+}
